@@ -3,6 +3,7 @@ CONSTANTS
   K = 2
   Kinds = {"view", "op"}
   Emit = TRUE
+  RepLevel = 2
   Bug = "none"
 INVARIANTS InvView InvOp EmitInv
 CHECK_DEADLOCK FALSE
